@@ -340,10 +340,15 @@ void _mzd_compress_l(mzd_t *A, rci_t r1, rci_t n1, rci_t r2) {
 
   word tmp;
   wi_t block;
+  /* the code below writes whole words; if A is a window the bits of its last word that lie
+     beyond its last column belong to the parent and must survive */
+  word const keep_end = ~A->high_bitmask;
+  wi_t const last     = A->width - 1;
 
   for (rci_t i = r1 + r2; i < A->nrows; ++i) {
 
     rci_t j = r1;
+    word const saved_end = mzd_row(A, i)[last] & keep_end;
 
     /* first we deal with the rest of the current word we need to
        write */
@@ -391,6 +396,8 @@ void _mzd_compress_l(mzd_t *A, rci_t r1, rci_t n1, rci_t r2) {
        which deals with last few bits. */
 
     for (; j < n1 + r2; j += m4ri_radix) { row[j / m4ri_radix] = 0; }
+
+    row[last] = (row[last] & ~keep_end) | saved_end;
   }
 
 #endif
